@@ -126,6 +126,9 @@ type impl struct {
 	script []string
 	dials  []dialRec
 	budget int
+	bornFailing int // the next k incarnations are born with failing writes
+	appClosed   bool
+	violation   string
 }
 
 func (i *impl) Dial(c transport.DialConfig) (transport.Transport, error) {
@@ -146,6 +149,10 @@ func (i *impl) Dial(c transport.DialConfig) (transport.Transport, error) {
 	u := &utr{idx: len(i.incs), in: make(chan []byte, 4096), failR: make(chan struct{}), done: make(chan struct{}), params: c.NegotiationParams()}
 	if c.Reconnect {
 		u.in <- []byte("hello") // consumed by the handshake read of reconnect()
+		if i.bornFailing > 0 {
+			i.bornFailing--
+			u.failW = true
+		}
 	}
 	i.incs = append(i.incs, u)
 	return u, nil
@@ -318,6 +325,12 @@ func (i *impl) exec(op string) string {
 		u.closeErr = true
 		u.mu.Unlock()
 		return "ok"
+	case "bornfailing":
+		k, _ := strconv.Atoi(w[1])
+		i.mu.Lock()
+		i.bornFailing = k
+		i.mu.Unlock()
+		return "ok"
 	case "failw":
 		u := i.cur()
 		u.mu.Lock()
@@ -341,15 +354,28 @@ func (i *impl) exec(op string) string {
 		i.mu.Lock()
 		nd := len(i.dials)
 		i.mu.Unlock()
-		u.onceR.Do(func() { close(u.failR) })
+		wasDead, first := i.isDead(), false
+		u.onceR.Do(func() { first = true; close(u.failR) })
 		// wait for the read loop to notice (first new dial attempt) unless the transport is already closed/dead
+		redialled := false
 		for t := time.Now(); time.Since(t) < 300*time.Millisecond; time.Sleep(time.Millisecond) {
 			i.mu.Lock()
 			n := len(i.dials)
 			i.mu.Unlock()
 			if n > nd {
+				redialled = true
 				break
 			}
+		}
+		if first && !wasDead && !i.appClosed && !redialled {
+			for t := time.Now(); time.Since(t) < 2*time.Second && !redialled; time.Sleep(time.Millisecond) { // a loaded machine
+				i.mu.Lock()
+				redialled = len(i.dials) > nd
+				i.mu.Unlock()
+			}
+		}
+		if first && !wasDead && !i.appClosed && !redialled {
+			i.violation = fmt.Sprintf("the current connection's Read failed (`%s`) on a live transport and no redial was attempted within 2.3 s: a broken connection is not replaced", op)
 		}
 		i.settle()
 		// dead? then Read fails promptly
@@ -398,6 +424,7 @@ func (i *impl) exec(op string) string {
 			return "msg " + lp.Hex(b)
 		})
 	case "close":
+		i.appClosed = true
 		return guard(func() string { i.tr.Close(); return "ok" })
 	case "dials":
 		i.mu.Lock()
@@ -471,6 +498,10 @@ func main() {
 	do := func(op string) string {
 		out := im.exec(op)
 		h.Op(op, out)
+		if im.violation != "" {
+			h.Violate(im.violation)
+			im.violation = ""
+		}
 		switch {
 		case strings.HasPrefix(out, "crash"):
 			h.Violate("reconnect transport panicked on: " + op)
@@ -527,6 +558,10 @@ func main() {
 				}
 				sig += "s"
 			case k == 5:
+				if rng.Intn(3) == 0 {
+					do(fmt.Sprintf("bornfailing %d", 1+rng.Intn(3))) // the write that follows fails again on the fresh connection(s)
+					sig += "b"
+				}
 				do("failw")
 				sig += "f"
 			case k == 6:
